@@ -470,7 +470,9 @@ class RequireMatcher(WrappingMatcher):
 
     def skip_to_quality(self, minquality):
         skipped = self.a.skip_to_quality(minquality)
-        self.child._find_next()
+        # Re-align the intersection; "a" may not have moved at all, or may
+        # have run out
+        self.child._find_first()
         return skipped
 
     def weight(self):
